@@ -264,8 +264,11 @@ impl<'a> Interp<'a> {
         let o = match (a, b) {
             (Val::Text(x), Val::Text(y)) => x.as_bytes().cmp(y.as_bytes()),
             (Val::Text(_), _) | (_, Val::Text(_)) => return amb("text/number comparison"),
+            (Val::Bool(x), Val::Bool(y)) => x.cmp(y),
             _ => {
-                let (x, y) = (to_num(a).unwrap(), to_num(b).unwrap());
+                let (Some(x), Some(y)) = (to_num(a), to_num(b)) else {
+                    return amb("comparison of an open / mixed value");
+                };
                 match x.partial_cmp(&y) {
                     Some(o) => o,
                     None => return amb("NaN comparison"),
